@@ -491,4 +491,5 @@ def run(ctx):
         ctx.holds("C20.R8", f"{len(helpers)} generator functions examined, {seen8} context-dependent Decimal calls, all with a context", g.where())
 
     ctx.borrow("C16", {"C16.R8": "C20.R9"}, "a generated datum is valid only if validate and the writers can judge it: they run the preparer of every candidate union branch on the generated value, so a preparer that raises for a value of another branch's type makes generated data of schemas with such unions unusable")
+    ctx.borrow("C04", {"C04.R3": "C20.R10"}, "generate_many hands out a one-shot iterator: the documented idiom writer(fo, schema, generate_many(schema, n)) stores all n records only if writer iterates its records argument exactly once, from the first record", only=lambda o: ":writer:" in o["where"] or o["where"].endswith(":writer"))
 
